@@ -32,6 +32,31 @@ pub fn write_probe(dir: &Path) -> PathBuf {
     p
 }
 
+/// sparse probe layout: like the probe, but with holes in every pattern — the AltGr entry ABSENT while the Normal one has a value,
+/// the Normal entry absent while the AltGr one has a value, an entry present but empty, both absent, number-pad entries absent
+pub fn write_probe_sparse(dir: &Path) -> PathBuf {
+    let mut m = BTreeMap::new();
+    let mut i = 0usize;
+    for (vc, _, _) in KEYS {
+        if let Some((n, num)) = entry_name(vc) {
+            i += 1;
+            if num { if i % 3 != 0 { m.insert(n.clone(), format!("<{}>", n)); } else if i % 2 == 0 { m.insert(n.clone(), String::new()); } continue; }
+            let (kn, ka) = (format!("Key_{}_Normal", n), format!("Key_{}_AltGr", n));
+            match i % 6 {
+                0 => { m.insert(kn.clone(), format!("<{}>", kn)); }                                                  // AltGr absent
+                1 => { m.insert(ka.clone(), format!("<{}>", ka)); }                                                  // Normal absent
+                2 => { m.insert(kn.clone(), format!("<{}>", kn)); m.insert(ka.clone(), String::new()); }             // AltGr empty
+                3 => { m.insert(kn.clone(), String::new()); m.insert(ka.clone(), format!("<{}>", ka)); }             // Normal empty
+                4 => {}                                                                                              // both absent
+                _ => { m.insert(kn.clone(), format!("<{}>", kn)); m.insert(ka.clone(), format!("<{}>", ka)); }
+            }
+        }
+    }
+    let p = dir.join("probe-sparse-layout.json");
+    write_layout(&p, &m);
+    p
+}
+
 /// S1: Probhat with multi-code-point values, empty and missing entries
 pub fn write_s1(dir: &Path) -> PathBuf {
     let mut m = probhat();
